@@ -59,9 +59,15 @@ class Worker:
         self.start()
 
     def start(self):
+        def limit():
+            # safety net for the machine: an input that asks for absurd amounts of memory kills
+            # only its worker (allocation failure aborts the process)
+            import resource
+            lim = int(self.env.get("NBSERVE_MEM_GB", "12")) << 30
+            resource.setrlimit(resource.RLIMIT_AS, (lim, lim))
         self.proc = subprocess.Popen(
             [self.binary], stdin=subprocess.PIPE, stdout=subprocess.PIPE,
-            stderr=subprocess.DEVNULL, env=self.env, bufsize=0)
+            stderr=subprocess.DEVNULL, env=self.env, bufsize=0, preexec_fn=limit)
         self.buf = b""
         if self.bootstrap:
             r = self.call({"op": "new", "sid": "p", "use": ["prelude"]}, timeout=120)
@@ -235,11 +241,24 @@ class Shard:
     def inconclusive_case(self, reason, case=None):
         self.inconclusive.append({"reason": reason, "case": case})
 
+    def _capped_violations(self, cap=60):
+        """at most `cap` violations, preferring one per distinct signature/reason"""
+        out, seen, rest = [], set(), []
+        for v in self.violations:
+            case = v.get("case") if isinstance(v.get("case"), dict) else {}
+            key = case.get("signature") or v["why"][:100]
+            if key in seen:
+                rest.append(v)
+            else:
+                seen.add(key)
+                out.append(v)
+        return (out + rest)[:cap]
+
     def result(self):
         return {
             "spec": self.spec, "evaluations": self.evaluations,
             "distinct": self.distinct, "samples": self.samples,
-            "violations": self.violations[:50], "n_violations": len(self.violations),
+            "violations": self._capped_violations(), "n_violations": len(self.violations),
             "known": self.known, "inconclusive": self.inconclusive[:50],
             "n_inconclusive": len(self.inconclusive), "counters": self.counters,
         }
@@ -278,6 +297,7 @@ def get_worker(profile="checked", env=None):
 def _run_shard(modname, prop_id, spec):
     import importlib
     signal.signal(signal.SIGINT, signal.SIG_IGN)
+    sys.setrecursionlimit(200000)     # deeply nested values come back as deeply nested JSON
     mod = importlib.import_module(modname)
     sh = Shard(prop_id, spec)
     try:
@@ -402,9 +422,10 @@ def run_property(mod, prop_id, tier, seed, replay=None):
     if status == "violated":
         os.makedirs(os.path.join(REPLAY_DIR, prop_id), exist_ok=True)
         seen = set()
-        for i, v in enumerate(merged["violations"][:20]):
-            key = v["why"][:120]
-            if key in seen:
+        for i, v in enumerate(merged["violations"]):
+            case = v.get("case") if isinstance(v.get("case"), dict) else {}
+            key = case.get("signature") or v["why"][:100]
+            if key in seen or len(seen) >= 25:
                 continue
             seen.add(key)
             path = os.path.join(REPLAY_DIR, prop_id, f"case_{tier}_{seed}_{i}.json")
